@@ -254,6 +254,32 @@ class FunTerm:
             tv = self.tr(value)
             for k, e in enumerate(t.elts):
                 self.define(e.id, tm.subscript(tv, tm.const(k)))
+        elif isinstance(t, (ast.Tuple, ast.List)):
+            # simultaneous assignment: every right-hand side is evaluated in the PRE-state, then the stores
+            # happen left to right (so `d[k1], d[k2] = d.get(k1)+w, d.get(k2)+w` is NOT two increments)
+            vals = None
+            if isinstance(value, (ast.Tuple, ast.List)) and len(value.elts) == len(t.elts):
+                vals = [self.tr(v) for v in value.elts]
+            else:
+                tv = self.tr(value)
+                vals = [tm.subscript(tv, tm.const(k)) for k in range(len(t.elts))]
+            for e, v in zip(t.elts, vals):
+                if varname(e) is not None and not isinstance(e, ast.Subscript):
+                    self.define(varname(e), v)
+                elif isinstance(e, ast.Subscript) and varname(e.value) is not None:
+                    nm = varname(e.value)
+                    if nm not in self.env:
+                        self.env[nm] = self.translator().tr(ast.parse(nm, mode="eval").body) if "." in nm else tm.sym(nm)
+                        self.defdepth.setdefault(nm, 0)
+                    key = self.tr(e.slice)
+                    if self.defdepth.get(nm, 0) == self.cur_depth() and not txt_is_empty_dict(self.env[nm]) and not (tm.single_atom(self.env[nm]) or ("",))[0] == "dictacc":
+                        self.env[nm] = tm.upd(self.env[nm], key, v)
+                    else:
+                        self.contribute(nm, "dict", ("set", key, v))
+                else:
+                    r = astx.root_name(e)
+                    if r and r in self.env:
+                        self.env[r] = OPQ(f"store into {txt(e)}")
         elif isinstance(t, ast.Subscript) and varname(t.value) is not None:
             nm = varname(t.value)
             key = self.tr(t.slice)
